@@ -68,6 +68,13 @@ package runs
 //@   assigns r.status, r.modifiedOn
 //@   ensures [status_only] r.status == status
 
+// a new run is active, not exited, and hangs under the run it is given
+//@ func NewRun
+//@   inline
+//@   havocs newLegacyExtra, NewResults, Reference, NewV4, Now
+//@   assigns computed
+//@   ensures [new_active] typeis(result, *run) && result.(*run) != nil && fresh(result.(*run)) && result.(*run).status == flows.RunStatusActive && result.(*run).exitedOn == nil && result.(*run).parent == parent
+
 // ---- C10 / C01: run location
 //@ func (r *run) PathLocation
 //@   nopanic
